@@ -145,6 +145,9 @@ func run(sc kit.Scenario, im impl, out *kit.Out) error {
 				if kind == "err" && n == at {
 					return false, errCallback
 				}
+				if kind == "stoperr" && n == at {
+					return true, errCallback
+				}
 				if kind == "stop" && n == at {
 					return true, nil
 				}
